@@ -4,7 +4,7 @@ every multihash function / digest length and many bit positions / truncation len
 import os, shutil
 import vlib
 
-BODY = '{"bitflip","truncated","appended","other","empty","oversized"}'
+BODY = '{"bitflip","truncated","appended","other","empty","oversized","shortwrite"}'    # shortwrite: the body is cut off in transit (connection dropped mid-body)
 ALL = '{"bitflip","truncated","appended","other","empty","oversized","s400","s500","s403","s404","reset","shortwrite","stall","cancel","hookfail"}'
 INV = ["StoreSound", "ReportedVerified", "FailureIsClean", "Converges", "AnnounceRetryPossible", "ExportBehaviour"]
 
